@@ -11,6 +11,10 @@ Tie: T + K.
      `roll_pass.rotation`, auto-rotator created or not and its angle, total turn of the in profile relative to the previous
      pass' out profile, classifiers; the rule table on every classifier combination; the rotated coordinate ring.
 
+     The same holds for HISTORIES (one sequence solved, edited with insert/remove/item assignment, settings and the global switch
+     changed, solved again; the model threads the cached `rotation` values of the pass objects from solve to solve) and for pass
+     classes that carry further pre-processor factories around `rotator_factory`.
+
 The oracle is written from the property text (see `Oracle`): it counts the rotators that act between two passes
 (spy on `Rotator.solve`), measures the turn between pass k's out and pass k+1's in cross-section vertex by vertex
 (a scalene marker polygon, so no symmetry can hide a turn), checks every acting rotator (out ring = in ring turned
@@ -22,7 +26,7 @@ import struct
 import traceback
 
 from ..translate import c14_rot
-from ..core import LEAN_DIR, REPO
+from ..core import LEAN_DIR, REPO, InfraError
 
 ID = "C14"
 LEAN_MODULES = ["PyrollProps.C14"]
@@ -35,11 +39,20 @@ RULE = ("(a) every translated rule function x every subset pair of the classifie
         "from {unset, True, False, 0, 45, 90, 33.3, ...}; (d) random words of length <= 8 with random pass kinds (stub passes "
         "with arbitrary classifiers, real two-/three-roll passes with real grooves), CoolingPipe, rule-based and explicit "
         "rotators; (e) real PassSequence.solve runs; (f) stand-alone passes; (g) random rings through a real Rotator vs the "
-        "model's rotation. A case is one sequence + switch value; non-trivial = it has two passes with something or nothing "
-        "between them (or, for (b)/(g), selects a non-default rule / a non-zero angle); distinct by the canonical token list.")
+        "model's rotation; (p) every pattern of further pre-processor factories (new profile / same profile / None; before / after "
+        "rotator_factory in yield order) on throw-away pass subclasses x settings x both switch values; (h) histories on marker flows: "
+        "a random sequence is solved, then 1-4 times edited (rotators/transports/other units/passes inserted, removed, replaced, "
+        "swapped; a pass' rotation set or deleted; the switch toggled) and solved again with 1-3 outer iterations, objects keep their "
+        "identity and caches; (i) the same with real passes and the real PassSequence.solve (default and small max_iteration_count). "
+        "A case is one sequence + switch value (or one history); non-trivial = it has two passes with something or nothing "
+        "between them (or, for (b)/(g), selects a non-default rule / a non-zero angle; for histories: a re-solve with two passes); "
+        "distinct by the canonical token list.")
 ASSUMPTIONS = [
-    "hook resolution (explicit value first, then functions, latest registration first, first non-None wins) is modelled by hand "
-    "in Rot.lean (it is the subject of C01/C02), validated here by the differential runs",
+    "hook resolution (explicit value first, then the cached value, then functions, latest registration first, first non-None wins; "
+    "reevaluate_cache() in every iteration of a unit's solution loop recomputes the cached values from the functions) is modelled "
+    "by hand in Rot.lean (it is the subject of C01/C02), validated here by the differential runs incl. the histories",
+    "further pre-processors of a pass class are modelled as geometry-neutral (they hand on section and classifiers unchanged) or as "
+    "returning None; a pre-processor that itself turns or relabels the workpiece is outside the property",
     "shapely.affinity.rotate acts vertex-wise with the matrix [[cos,-sin],[sin,cos]] of angle*pi/180 (its snapping of |cos|,|sin| < 2.5e-16 "
     "to 0 is a rounding artefact, not modelled; coordinates are compared with tolerance 1e-12 relative)",
     "geometry theorems are over the reals; floats are compared with the stated tolerances",
@@ -71,6 +84,12 @@ def _in_impl(e):
 #   setting  u | t | f | n<literal>     (n0 = int 0, n0.0 = float, n45, n33.3 …)
 #   variant  s2 (stub two-roll pass with the given classifiers) | s3 (stub three-roll pass: given classifiers + "3fold")
 #            | g=<kind> (real two-roll pass from common.make_pass) | g3 (real three-roll pass)
+#            | gw (real two-roll pass with a wide, shallow oval groove that accepts the workpiece at any angle)
+#   a stub pass may carry a 5th component <pres>: the pre-processor factories of its (throw-away) class in yield order,
+#   exactly one `F` = rotator_factory (inherited from BaseRollPass), `i` = factory of a plain unit whose solve returns a NEW
+#   profile, `m` = factory of a duck unit that returns the profile object it was given, `n` = factory returning None;
+#   those left of `F` are registered on a mixin behind Unit in the MRO (yielded first), those right of it on the subclass.
+# histories: an arrangement is a list of "<id>=<token>"; objects persist between the solves of a history by id.
 # ---------------------------------------------------------------------------------------------------------------
 def parse_setting(s):
     if s == "u":
@@ -120,6 +139,33 @@ class World:
                           nominal_radius=0.1)
         self.roll3 = Roll(groove=RoundGroove(r1=3e-3, r2=12.5e-3, depth=5e-3, pad_angle=30), nominal_radius=0.16)
         self.marker = np.array([(3, 0.5), (1, 2), (-2, 1.5), (-2.5, -1), (0.5, -2.2)]) * 1e-3
+        self._pre_classes = {}
+        other = self.Other
+
+        class _InPlace:
+            label = "in-place pre-processor"
+
+            def solve(self, profile):
+                return profile
+        self._pre_factories = {
+            "i": lambda unit: other(label="neutral pre-processor", duration=0, length=0),
+            "m": lambda unit: _InPlace(),
+            "n": lambda unit: None,
+        }
+
+    def pre_class(self, base, pres):
+        """throw-away subclass of a stub pass class carrying further pre-processor factories around the inherited
+        `rotator_factory` (nothing is registered on a core class)"""
+        key = (base, pres)
+        if key not in self._pre_classes:
+            if pres.count("F") != 1 or set(pres) - set("Fimn"):
+                raise ValueError(pres)
+            before, after = pres.split("F")
+            mixin = type("C14PreMixin", (), {"pre_processors": [self._pre_factories[c] for c in before]})
+            cls = type(base.__name__ + "Pre", (base, mixin), {})
+            cls.pre_processors = [self._pre_factories[c] for c in after]
+            self._pre_classes[key] = cls
+        return self._pre_classes[key]
 
     # -- global state --------------------------------------------------------------------------------------
     class _Switch:
@@ -208,10 +254,18 @@ class World:
             kw = {} if s is None else {"rotation": s}
             variant = t[2]
             cls = set() if len(t) < 4 or t[3] == "-" else set(t[3].split(","))
+            pres = t[4] if len(t) > 4 else "F"
+            mpres = "" if pres == "F" else ":" + pres.replace("m", "i")
             if variant == "s2":
-                p = self.Stub2(roll=self.roll2, label="P", gap=2e-3, c14_cls=cls, **kw)
+                c2 = self.Stub2 if pres == "F" else self.pre_class(self.Stub2, pres)
+                p = c2(roll=self.roll2, label="P", gap=2e-3, c14_cls=cls, **kw)
             elif variant == "s3":
-                p = self.Stub3(roll=self.roll3, label="P3", inscribed_circle_diameter=22e-3, c14_cls=cls, **kw)
+                c3 = self.Stub3 if pres == "F" else self.pre_class(self.Stub3, pres)
+                p = c3(roll=self.roll3, label="P3", inscribed_circle_diameter=22e-3, c14_cls=cls, **kw)
+            elif variant == "gw":
+                from pyroll.core import RollPass, Roll, CircularOvalGroove
+                p = RollPass(label="wide-oval", roll=Roll(groove=CircularOvalGroove(depth=5e-3, r1=6e-3, r2=120e-3),
+                                                          nominal_radius=160e-3, rotational_frequency=1), gap=2e-3, **kw)
             else:
                 from .common import make_pass
                 import random
@@ -221,7 +275,7 @@ class World:
                     p = ThreeRollPass(roll=self.roll3, label="three-round", inscribed_circle_diameter=22e-3, **kw)
                 else:
                     p, _ = make_pass(r, kind=variant[2:], **kw)
-            return "P", p, "P:%s:%s" % (model_setting(t[1]), cls_str(p.classifiers))
+            return "P", p, "P:%s:%s%s" % (model_setting(t[1]), cls_str(p.classifiers), mpres if variant in ("s2", "s3") else "")
         raise ValueError(tok)
 
     # -- measured turn between two rings -------------------------------------------------------------------------
@@ -435,6 +489,16 @@ def oracle_pairs(w, spec, auto, toks, kinds, units, run):
                 exp_total += float(e)
         if known and rb["congruent"] and not ang_eq(rb["turn"], exp_total):
             probs.append(("turn-vs-text", f"{where}: measured turn {rb['turn']:.6f} deg, the property text gives {exp_total}"))
+            # who turned it, judged by the measured turn alone (whatever the rotator objects claim)
+            if setting is None and auto:
+                if not explicit and ang_eq(rb["turn"], 0.0):
+                    probs.append(("turned-by-neither", f"{where}: no explicit rotator, and the in profile is not turned at all "
+                                  f"(the automatic entry rotation of {exp_total} deg did not arrive)"))
+                elif explicit:
+                    e2 = spec.angle(cls, p.classifiers)
+                    if e2 is not None and e2 != 0 and ang_eq(rb["turn"], exp_total + float(e2)):
+                        probs.append(("turned-by-both", f"{where}: measured turn {rb['turn']:.6f} deg = explicit rotator(s) "
+                                      f"{exp_total} + automatic entry rotation {e2}"))
     for i, rr in enumerate(run):
         for r in rr["spy"]:
             for (k, what) in check_rotator_record(w, r):
@@ -445,45 +509,61 @@ def oracle_pairs(w, spec, auto, toks, kinds, units, run):
 # ---------------------------------------------------------------------------------------------------------------
 # running one flat sequence on the implementation
 # ---------------------------------------------------------------------------------------------------------------
+def drive(w, auto, cls0, kinds, units, iters=1, reeval=False):
+    """Drive the units of a real flat PassSequence the way `Unit._solve_subunits` does, `iters` outer iterations: the profile
+    returned by one unit is handed to the next; roll passes are entered with the real `init_solve` and hand out a marker
+    profile carrying their classifiers.  With `reeval` the pass' own solution loop is represented by what it does to the
+    hook caches (`reevaluate_cache()`, as `Unit.solve` calls it in every iteration).
+    Returns the observations of the LAST iteration: run[i] = observation dict of unit i (stops at the first unit that raises)."""
+    run = []
+    with w.switch(auto), w.Spy(w) as spy:
+        for _it in range(iters):
+            run = []
+            prof = w.profile(0, cls0)
+            last_ring = w.np.array(prof.cross_section.exterior.coords)
+            npass = 0
+            for i, (k, u) in enumerate(zip(kinds, units)):
+                spy.log.clear()
+                try:
+                    if k == "P":
+                        u.init_solve(prof)
+                        ring = w.np.array(u.in_profile.cross_section.exterior.coords)
+                        turn, congr = w.measure(last_ring, ring)
+                        npass += 1
+                        out = w.profile(npass, u.classifiers)
+                        o = {"k": "P", "rotation": u.rotation, "in_cls": set(u.in_profile.classifiers), "turn": turn,
+                             "congruent": congr, "spy": list(spy.log), "out_cls": set(u.classifiers)}
+                        if reeval:
+                            u.reevaluate_cache()
+                            o["rotation_after"] = u.rotation
+                        run.append(o)
+                        prof = out
+                        last_ring = w.np.array(out.cross_section.exterior.coords)
+                    else:
+                        prof = u.solve(prof)
+                        o = {"k": k, "spy": list(spy.log)}
+                        if k == "R":
+                            o["angle"] = u.rotation
+                            o["out_cls"] = set(prof.classifiers)
+                        run.append(o)
+                except Exception as e:
+                    if not _in_impl(e):
+                        raise
+                    run.append({"k": "E", "exc": type(e).__name__, "msg": str(e)[:200], "spy": list(spy.log)})
+                    break
+            if run and run[-1]["k"] == "E":
+                break
+    return run
+
+
 def run_flow(w, auto, cls0, toks):
-    """Drive a real flat PassSequence the way `Unit._solve_subunits` does: the profile returned by one unit is handed to the
-    next; roll passes are entered with the real `init_solve` and hand out a marker profile carrying their classifiers.
-    Returns (kinds, units, model_tokens, run) where run[i] = observation dict of unit i (stops at the first unit that raises)."""
+    """one flat sequence of fresh units -> (kinds, units, model_tokens, run)"""
     built = [w.build(t) for t in toks]
     kinds = [b[0] for b in built]
     units = [b[1] for b in built]
     mtoks = [b[2] for b in built]
-    seq = w.PassSequence(units)           # sets the parents
-    run = []
-    prof = w.profile(0, cls0)
-    last_ring = w.np.array(prof.cross_section.exterior.coords)
-    npass = 0
-    with w.switch(auto), w.Spy(w) as spy:
-        for i, (k, u) in enumerate(zip(kinds, units)):
-            spy.log.clear()
-            try:
-                if k == "P":
-                    u.init_solve(prof)
-                    ring = w.np.array(u.in_profile.cross_section.exterior.coords)
-                    turn, congr = w.measure(last_ring, ring)
-                    npass += 1
-                    out = w.profile(npass, u.classifiers)
-                    run.append({"k": "P", "rotation": u.rotation, "in_cls": set(u.in_profile.classifiers), "turn": turn,
-                                "congruent": congr, "spy": list(spy.log), "out_cls": set(u.classifiers)})
-                    prof = out
-                    last_ring = w.np.array(out.cross_section.exterior.coords)
-                else:
-                    prof = u.solve(prof)
-                    o = {"k": k, "spy": list(spy.log)}
-                    if k == "R":
-                        o["angle"] = u.rotation
-                        o["out_cls"] = set(prof.classifiers)
-                    run.append(o)
-            except Exception as e:
-                if not _in_impl(e):
-                    raise
-                run.append({"k": "E", "exc": type(e).__name__, "msg": str(e)[:200], "spy": list(spy.log)})
-                break
+    seq = w.PassSequence(units)           # sets the parents (kept alive while the units are driven)
+    run = drive(w, auto, cls0, kinds, units)
     del seq
     return kinds, units, mtoks, run
 
@@ -504,10 +584,12 @@ def show_run(run):
     return out
 
 
-def compare_with_model(run, line, blind_auto=False):
+def compare_with_model(run, line, blind_auto=False, blind_rotation=False):
     """-> None if the model line agrees with the observations, else a description.
     blind_auto: the observations come from a finished real solve, where the auto-rotator object no longer exists - the
-    auto column of the model is then not compared (turn, classifiers and rotation value still are)."""
+    auto column of the model is then not compared (turn, classifiers and rotation value still are).
+    blind_rotation: the value of `rotation` read after a finished solve is the re-evaluated one, the model reports the one the
+    factory saw on entry - not compared."""
     obs = [x.strip() for x in line.split(";")] if line.strip() else []
     if len(obs) != len(run):
         return f"model emits {len(obs)} observations, implementation {len(run)}"
@@ -527,7 +609,7 @@ def compare_with_model(run, line, blind_auto=False):
         else:
             if t[0] != "P":
                 return f"unit #{i}: model says {m} for a pass"
-            if t[1] != canon_rot(o["rotation"]):
+            if not blind_rotation and t[1] != canon_rot(o["rotation"]):
                 return f"unit #{i}: roll_pass.rotation: model {t[1]}, implementation {canon_rot(o['rotation'])} ({o['rotation']!r})"
             au = o["spy"] if not blind_auto else ([] if t[2] == "-" else [{"angle": unbits(t[2])}])
             if (t[2] == "-") != (len(au) == 0) or len(au) > 1:
@@ -571,6 +653,29 @@ CORPUS = [
 ]
 
 
+# histories that failed once (the stale `rotation` cache of rotator_factory, see notes/C14.md)
+CORPUS_HIST = [
+    {"in_profile_classifiers": ["round"], "real": False, "steps": [       # explicit rotator inserted into a solved sequence
+        {"auto_rotation": True, "iterations": 1, "units": ["0=P:u:s2:oval", "1=T", "2=P:u:s2:round"]},
+        {"auto_rotation": True, "iterations": 1, "units": ["0=P:u:s2:oval", "3=R:n0", "1=T", "2=P:u:s2:round"]}]},
+    {"in_profile_classifiers": ["round"], "real": False, "steps": [       # … and removed from one
+        {"auto_rotation": True, "iterations": 2, "units": ["0=P:u:s2:oval", "3=R:n90", "1=T", "2=P:u:s2:round"]},
+        {"auto_rotation": True, "iterations": 1, "units": ["0=P:u:s2:oval", "1=T", "2=P:u:s2:round"]}]},
+    {"in_profile_classifiers": ["round"], "real": False, "steps": [       # the global switch toggled between two solves
+        {"auto_rotation": True, "iterations": 2, "units": ["0=P:u:s2:oval", "1=T", "2=P:u:s2:round"]},
+        {"auto_rotation": False, "iterations": 1, "units": ["0=P:u:s2:oval", "1=T", "2=P:u:s2:round"]}]},
+    {"in_profile_classifiers": ["round"], "real": False, "steps": [       # several iterations after the edit
+        {"auto_rotation": True, "iterations": 1, "units": ["0=P:u:s2:oval", "1=T", "2=P:u:s2:round"]},
+        {"auto_rotation": True, "iterations": 3, "units": ["0=P:u:s2:oval", "3=R:n45", "1=T", "2=P:u:s2:round"]},
+        {"auto_rotation": True, "iterations": 2, "units": ["0=P:u:s2:oval", "1=T", "2=P:u:s2:round"]}]},
+    {"in_profile_classifiers": ["round"], "real": True, "steps": [        # real solves at the default iteration count
+        {"auto_rotation": True, "max_iteration_count": None, "units": ["0=P:u:g=oval", "1=T", "2=P:u:gw"]},
+        {"auto_rotation": False, "max_iteration_count": None, "units": ["0=P:u:g=oval", "1=T", "2=P:u:gw"]},
+        {"auto_rotation": True, "max_iteration_count": None, "units": ["0=P:u:g=oval", "3=R:n0", "1=T", "2=P:u:gw"]},
+        {"auto_rotation": True, "max_iteration_count": None, "units": ["0=P:u:g=oval", "1=T", "2=P:u:gw"]}]},
+]
+
+
 def words(alphabet, n):
     if n == 0:
         yield []
@@ -611,6 +716,23 @@ def needs_next_pass_ok(toks):
 # ---------------------------------------------------------------------------------------------------------------
 # translate / run / replay
 # ---------------------------------------------------------------------------------------------------------------
+def guarded(ctx, what, replay_obj, fn):
+    """Run harness code that inspects values produced by the implementation.  Behaviour of the implementation the harness
+    does not expect (a value of another type, a missing profile, a ring of another shape …) surfaces as TypeError /
+    AttributeError / ValueError … of HARNESS code; that is reported as a broken tie with the case as replay (the extended search
+    then looks for a judged failing input), never as a crash of the check.  Exceptions raised inside pyroll are handled where
+    the implementation is called (they become observations / violations)."""
+    try:
+        return fn()
+    except InfraError:
+        raise
+    except Exception as e:
+        ctx.count("harness-could-not-judge:" + type(e).__name__)
+        ctx.disagreement(f"the implementation behaves in a way the harness cannot judge ({what}): {type(e).__name__}: {e}",
+                         dict(replay_obj, trace=traceback.format_exc()[-1500:]))
+        return None
+
+
 def translate(ctx):
     try:
         ctx.c14_data = c14_rot.emit(REPO, LEAN_DIR)
@@ -654,6 +776,494 @@ def shrink(w, spec, auto, cls0, toks, key):
                 changed = True
                 break
     return cur
+
+
+# ---------------------------------------------------------------------------------------------------------------
+# histories: ONE sequence is solved, edited, solved again …  (the arrangement reached by editing is still an arrangement)
+# ---------------------------------------------------------------------------------------------------------------
+# what a decision taken from the value cached by an earlier solve looks like in a solve that ran ONE outer iteration
+STALE_KEYS = {"turned-by-both", "turned-by-neither", "global-off-still-rotates", "rotation-value-wrong", "turn-vs-text"}
+STALE_KEY = "resolve-single-iteration-stale-rotation"
+
+
+def hist_key(step, iterations, key):
+    """stable key of a problem seen in step `step` (0 = first solve of fresh objects) of a history"""
+    if step == 0:
+        return key
+    if iterations == 1 and key in STALE_KEYS:
+        return STALE_KEY
+    return "resolve-" + key
+
+
+def cache_str(v):
+    return "t" if v is True else "f" if v is False else "-" if v is None else "?" + repr(v)
+
+
+class Hist:
+    """a live real PassSequence whose unit objects persist (by id) between the solves of a history"""
+
+    def __init__(self, w, cls0, real=False):
+        self.w, self.cls0, self.real = w, cls0, real
+        self.objs = {}            # id -> [kind, unit, token, model token]
+        self.seq = w.PassSequence([])
+        self.iterations = [0]
+        if real:
+            orig = self.seq._solve_subunits
+            counter = self.iterations
+
+            def counted():
+                counter[0] += 1
+                return orig()
+            self.seq._solve_subunits = counted      # instance attribute: counts the outer iterations of `seq.solve`
+
+    def _retune(self, o, tok):
+        """the same object with another `rotation` setting (set / deleted on the live object)"""
+        old, new = o[2].split(":"), tok.split(":")
+        if old[0] != new[0] or old[2:] != new[2:]:
+            raise ValueError(f"history token {tok} does not describe the object {o[2]}")
+        v = parse_setting(new[1])
+        if v is None:
+            del o[1].rotation
+        else:
+            o[1].rotation = v
+        o[2] = tok
+        if o[0] == "P":
+            m = o[3].split(":")
+            o[3] = ":".join([m[0], model_setting(new[1])] + m[2:])
+        else:
+            o[3] = "R:u" if v is None else "R:n" + bits(v)
+
+    def arrange(self, arr):
+        """edit the live sequence so that it holds the units of `arr` (list of "<id>=<token>") in that order, with a
+        single insert / remove / item assignment where one suffices, else by slice assignment"""
+        ids = []
+        for item in arr:
+            i, tok = item.split("=", 1)
+            o = self.objs.get(i)
+            if o is None:
+                k, u, m = self.w.build(tok)
+                self.objs[i] = [k, u, tok, m]
+            elif o[2] != tok:
+                self._retune(o, tok)
+            ids.append(i)
+        new = [self.objs[i][1] for i in ids]
+        sub = self.seq.subunits
+        old = list(sub)
+        if [id(u) for u in old] != [id(u) for u in new]:
+            done = False
+            if len(new) == len(old) + 1:
+                for j in range(len(new)):
+                    if [id(u) for u in new[:j] + new[j + 1:]] == [id(u) for u in old]:
+                        sub.insert(j, new[j])
+                        done = True
+                        break
+            elif len(new) == len(old) - 1:
+                for j in range(len(old)):
+                    if [id(u) for u in old[:j] + old[j + 1:]] == [id(u) for u in new]:
+                        if j % 2:
+                            sub.remove(old[j])
+                        else:
+                            del sub[j]
+                        done = True
+                        break
+            elif len(new) == len(old):
+                diff = [j for j in range(len(new)) if new[j] is not old[j]]
+                if len(diff) == 1 and all(new[diff[0]] is not u for u in old):
+                    sub[diff[0]] = new[diff[0]]
+                    done = True
+            if not done:
+                sub[:] = new
+        self.ids = ids
+        self.kinds = [self.objs[i][0] for i in ids]
+        self.units = new
+        self.toks = [self.objs[i][2] for i in ids]
+
+    def slots(self):
+        out = []
+        for i in self.ids:
+            k, _, _, m = self.objs[i]
+            out.append("P#%s:%s" % (i, m[2:]) if k == "P" else m)
+        return out
+
+    def caches(self):
+        return ",".join(cache_str(self.objs[i][1].__cache__.get("rotation")) for i in self.ids if self.objs[i][0] == "P")
+
+    def solve(self, auto, iterations=1, mic=None):
+        """-> (run, iterations done).  Marker flows: exactly `iterations` outer iterations are driven.  Real flows:
+        `seq.solve(in profile)` with `max_iteration_count = mic` (None = default); the iterations are counted."""
+        w = self.w
+        if not self.real:
+            return drive(w, auto, self.cls0, self.kinds, self.units, iters=iterations, reeval=True), iterations
+        import random
+        from .common import make_in_profile
+        if mic is None:
+            self.seq.__dict__.pop("max_iteration_count", None)
+        else:
+            self.seq.max_iteration_count = mic
+        self.iterations[0] = 0
+        try:
+            with w.switch(auto):
+                self.seq.solve(make_in_profile(random.Random(7), "round", size=30e-3))
+        except Exception as e:
+            if not _in_impl(e):
+                raise
+            return None, self.iterations[0]
+        return observe_solved(w, self.seq, self.kinds, self.units), self.iterations[0]
+
+
+def observe_solved(w, seq, kinds, units):
+    """observations on the units of a sequence after a real `solve` (the auto-rotators no longer exist: whether one acted is
+    read off the geometry)"""
+    np = w.np
+    run_ = []
+    last_ring = np.array(seq.in_profile.cross_section.exterior.coords)
+    for kd, u in zip(kinds, units):
+        if kd == "P":
+            ring = np.array(u.in_profile.cross_section.exterior.coords)
+            turn, congr = w.measure(last_ring, ring)
+            last_ring = np.array(u.out_profile.cross_section.exterior.coords)
+            run_.append({"k": "P", "rotation": u.rotation, "in_cls": set(u.in_profile.classifiers), "turn": turn, "congruent": congr,
+                         "spy": [], "out_cls": set(u.out_profile.classifiers)})
+        elif kd == "R":
+            run_.append({"k": "R", "angle": u.rotation, "out_cls": set(u.out_profile.classifiers), "spy": []})
+        else:
+            run_.append({"k": kd, "spy": []})
+    return run_
+
+
+def judge_solved(spec, auto, toks, kinds, units, run_):
+    """the property text on the FINAL state of a really solved flat sequence: total turn between consecutive passes,
+    in-profile classifiers, value of `rotation` -> [(key, what)]"""
+    probs = []
+    idx = [i for i, k in enumerate(kinds) if k == "P"]
+    for a, b in zip(idx, idx[1:]):
+        setting = parse_setting(toks[b].split(":")[1])
+        explicit = [i for i in range(a + 1, b) if kinds[i] == "R"]
+        if setting is None:
+            entry = auto and not explicit
+        elif isinstance(setting, bool):
+            entry = setting
+        else:
+            entry = setting != 0
+        total = 0.0
+        cls = set(run_[a]["out_cls"])
+        known = True
+        where = f"pass #{b} (setting {toks[b].split(':')[1]}, auto {'on' if auto else 'off'}, {len(explicit)} explicit rotator(s))"
+        for i in explicit:
+            e = units[i].__dict__.get("rotation")
+            if e is None:
+                e = spec.angle(cls, units[b].classifiers)
+            if e is None:
+                known = False
+                break
+            if units[i].rotation != e:
+                probs.append(("explicit-rotator-angle", f"explicit rotator #{i} turns {units[i].rotation}, expected {e}"))
+            total += float(e)
+            cls = cls | {"rotated"} | ({MARKS[e]} if e in MARKS else set())
+        explicit_total = total
+        auto_angle = None
+        if known:
+            auto_angle = setting if (setting is not None and not isinstance(setting, bool)) else spec.angle(cls, units[b].classifiers)
+        if known and entry:
+            if auto_angle is None:
+                known = False
+            else:
+                total += float(auto_angle)
+                cls = cls | {"rotated"} | ({MARKS[auto_angle]} if auto_angle in MARKS else set())
+        rb = run_[b]
+        if not rb["congruent"]:
+            probs.append(("in-profile-not-congruent", f"{where}: in cross-section is not a turned copy of the previous out cross-section"))
+        elif known and not ang_eq(rb["turn"], total):
+            key = "turn-vs-text"
+            if setting is None and auto:
+                if explicit and auto_angle is not None and ang_eq(rb["turn"], explicit_total + float(auto_angle)):
+                    key = "turned-by-both"
+                elif not explicit and ang_eq(rb["turn"], 0):
+                    key = "turned-by-neither"
+            elif setting is None and not auto:
+                key = "global-off-still-rotates"
+            probs.append((key, f"{where}: measured turn {rb['turn']:.6f} deg, the property text gives {total}"))
+        if known and rb["in_cls"] != cls and rb["congruent"] and ang_eq(rb["turn"], total):
+            probs.append(("in-profile-classifiers", f"{where}: in classifiers {sorted(rb['in_cls'])}, expected {sorted(cls)}"))
+        val = rb["rotation"]
+        if setting is not None:
+            if not (val == setting and isinstance(val, bool) == isinstance(setting, bool)):
+                probs.append(("rotation-value-not-the-setting", f"{where}: roll_pass.rotation = {val!r}"))
+        elif bool(val) != bool(entry):
+            probs.append(("rotation-value-wrong", f"{where}: roll_pass.rotation = {val!r}"))
+    return probs
+
+
+HIST_HOW = ("driver/props/c14.py exec_hist(World(), spec, history): ONE real PassSequence; every step lists its units as <id>=<token> "
+            "(objects persist by id; P:<rotation setting>:<pass variant>:<classifiers>[:<pre-processors>], T transport, Tc cooling "
+            "pipe, O plain unit, R:<angle|u> explicit rotator); between the steps the live sequence is edited with "
+            "subunits.insert/remove/del/item assignment and `rotation` is set/deleted on the live pass; each step solves with "
+            "Config.ROLL_PASS_AUTO_ROTATION = auto_rotation: marker flows drive `iterations` outer iterations unit by unit (passes "
+            "entered with init_solve + reevaluate_cache), real flows call seq.solve(Profile.round(30 mm)) with "
+            "max_iteration_count; the FINAL state of the last step is judged; ./check C14 --replay <this file>")
+
+
+def exec_hist(w, spec, hist):
+    """execute a history on fresh objects -> list per step of (run, iterations, [(classified key, what)], caches, slots)"""
+    h = Hist(w, hist["in_profile_classifiers"], real=hist.get("real", False))
+    res = []
+    for j, st in enumerate(hist["steps"]):
+        h.arrange(st["units"])
+        run_, its = h.solve(st["auto_rotation"], st.get("iterations", 1), st.get("max_iteration_count"))
+        probs = []
+        if run_ is not None:
+            probs = judge_hist_step(w, spec, h, st["auto_rotation"], run_)
+        res.append((run_, its, [(hist_key(j, its, k), what) for (k, what) in probs], h.caches(), h.slots()))
+        if run_ is None:
+            break
+    return res
+
+
+def judge_hist_step(w, spec, h, auto, run_):
+    if h.real:
+        return judge_solved(spec, auto, h.toks, h.kinds, h.units, run_)
+    probs = list(oracle_pairs(w, spec, auto, h.toks, h.kinds, h.units, run_))
+    if run_ and run_[-1]["k"] == "E":
+        ie = len(run_) - 1
+        if not (h.toks[ie] == "R:u" and not any(x.startswith("P:") for x in h.toks[ie + 1:])):
+            probs.append(("flow-raises-" + run_[-1]["exc"], f"unit #{ie} raises {run_[-1]['exc']}: {run_[-1]['msg']}"))
+    return probs
+
+
+def hist_fails(w, spec, hist, key):
+    res = exec_hist(w, spec, hist)
+    return len(res) == len(hist["steps"]) and any(k == key for (k, _) in res[-1][2])
+
+
+def shrink_hist(w, spec, hist, key):
+    """drop steps / objects / iterations while the LAST step still shows the same kind of problem"""
+    cur = hist
+    changed = True
+    budget = 60
+    while changed and budget > 0:
+        changed = False
+        cands = []
+        n = len(cur["steps"])
+        for j in range(n - 1):
+            cands.append(dict(cur, steps=cur["steps"][:j] + cur["steps"][j + 1:]))
+        ids = sorted({it.split("=")[0] for st in cur["steps"] for it in st["units"]})
+        for i in ids:
+            steps = [dict(st, units=[it for it in st["units"] if it.split("=")[0] != i]) for st in cur["steps"]]
+            if all(st["units"] for st in steps):
+                cands.append(dict(cur, steps=steps))
+        for j in range(n):
+            if cur["steps"][j].get("iterations", 1) > 1 and not cur.get("real"):
+                cands.append(dict(cur, steps=cur["steps"][:j] + [dict(cur["steps"][j], iterations=cur["steps"][j]["iterations"] - 1)]
+                                  + cur["steps"][j + 1:]))
+        for c in cands:
+            budget -= 1
+            if budget <= 0:
+                break
+            try:
+                ok = hist_fails(w, spec, c, key)
+            except InfraError:
+                raise
+            except Exception:
+                ok = False
+            if ok:
+                cur = c
+                changed = True
+                break
+    return cur
+
+
+def report_hist(ctx, w, spec, hist, key, what):
+    res = exec_hist(w, spec, hist)
+    obs = []
+    for (run_, its, probs, caches, _s) in res:
+        obs.append({"iterations_done": its, "observed": show_run(run_) if run_ is not None else "solve raised",
+                    "cached_rotation_of_the_passes": caches})
+        for (k, x) in probs:
+            if k == key:
+                what = x
+    ctx.violation(key, what, dict(hist, observed=obs, how=HIST_HOW))
+
+
+EDIT_ROT = ["n90", "n45", "n0", "n180", "u", "n33.3", "n-90", "n90"]
+
+
+def edit_arrangement(rng, arr, next_id, real=False):
+    """one edit of a token arrangement -> (new arrangement, description) - insert / remove / replace rotators, transports,
+    other units and passes, swap neighbours, change a pass' rotation setting"""
+    arr = list(arr)
+    kinds = [it.split("=", 1)[1].split(":")[0] for it in arr]
+    rots = [j for j, k in enumerate(kinds) if k == "R"]
+    plain = [j for j, k in enumerate(kinds) if k in ("T", "Tc", "O")]
+    passes = [j for j, k in enumerate(kinds) if k == "P"]
+    ops = ["ins-rot"] * 5 + ["del-rot"] * 5 + ["ins-plain", "del-plain", "replace", "set", "set", "swap", "none"]
+    if not real:
+        ops += ["ins-pass", "del-pass"]
+    op = rng.choice(ops)
+    new_rot = "R:" + rng.choice(["n90", "n0", "n180", "n30", "u", "n90"] if real else EDIT_ROT)
+    if op == "ins-rot":
+        j = rng.randrange(0, len(arr) + 1)
+        arr.insert(j, f"{next_id}={new_rot}")
+    elif op == "del-rot" and rots:
+        del arr[rng.choice(rots)]
+    elif op == "ins-plain":
+        arr.insert(rng.randrange(0, len(arr) + 1), f"{next_id}=" + rng.choice(["T", "T", "O", "Tc"]))
+    elif op == "del-plain" and plain:
+        del arr[rng.choice(plain)]
+    elif op == "replace" and (rots or plain):
+        j = rng.choice(rots + plain)
+        arr[j] = f"{next_id}=" + (rng.choice(["T", "O"]) if kinds[j] == "R" else new_rot)
+    elif op == "set" and passes:
+        j = rng.choice(passes[1:] or passes)
+        i, tok = arr[j].split("=", 1)
+        t = tok.split(":")
+        t[1] = rng.choice(["t", "f", "n0", "n45"] if real else SETTINGS_X) if (t[1] == "u" or rng.random() < 0.3) else "u"
+        arr[j] = i + "=" + ":".join(t)
+    elif op == "swap" and len(arr) >= 2:
+        j = rng.randrange(0, len(arr) - 1)
+        if not (real and "P" in (kinds[j], kinds[j + 1])):
+            arr[j], arr[j + 1] = arr[j + 1], arr[j]
+    elif op == "ins-pass":
+        c = rng.choice(CLS_POOL)
+        arr.insert(rng.randrange(0, len(arr) + 1), f"{next_id}=P:u:{rng.choice(['s2', 's2', 's3'])}:{cls_str(c)}")
+    elif op == "del-pass" and len(passes) > 2:
+        del arr[rng.choice(passes)]
+    else:
+        op = "none"
+    return arr, op
+
+
+def history_stream(ctx, w, spec, lines, expect, model, seen_keys, n_cases, real=False):
+    """(h) marker flows / (i) real PassSequence.solve: one sequence, solved, edited, solved again …; every solve's FINAL state is
+    judged from the property text and compared with the model (which carries the cached `rotation` values between the solves)"""
+    rng = ctx.rng
+    for _case in range(n_cases):
+        if real:
+            npass = rng.randrange(2, 4)
+            arr = ["0=P:u:g=oval"]
+            nid = 1
+            for k in range(1, npass):
+                for _j in range(rng.randrange(0, 3)):
+                    arr.append(f"{nid}=" + rng.choice(["T", "T", "Tc", "R:n90", "O"]))
+                    nid += 1
+                arr.append(f"{nid}=P:{'u' if rng.random() < 0.7 else rng.choice(['t', 'f', 'n45'])}:gw")
+                nid += 1
+            cls0 = ["round"]
+        else:
+            n = rng.randrange(2, 7)
+            wd = [rng.choice(["P", "P", "P", "T", "T", "R", "O"]) for _ in range(n)]
+            if wd.count("P") < 2:
+                wd += ["P"]
+            toks = realise(rng, wd, SETTINGS_X, False, variants=("s2", "s2", "s3"), pipes=True)
+            if rng.random() < 0.2:       # a class with further pre-processors
+                j = rng.choice([j for j, t in enumerate(toks) if t.startswith("P:")])
+                toks[j] += ":" + rng.choice(PRE_PATTERNS)
+            arr = [f"{j}={t}" for j, t in enumerate(toks)]
+            nid = len(arr)
+            cls0 = rng.choice(CLS_POOL)
+        auto = rng.random() < 0.8
+        hist = {"in_profile_classifiers": sorted(cls0), "real": real, "steps": []}
+        h = Hist(w, cls0, real=real)
+        nsteps = rng.randrange(2, 6)
+        nontriv = False
+        for j in range(nsteps):
+            op = "first"
+            if j > 0:
+                if rng.random() < 0.25:
+                    auto = not auto
+                    op = "switch"
+                    if rng.random() < 0.5:
+                        arr, op2 = edit_arrangement(rng, arr, nid, real)
+                        op += "+" + op2
+                else:
+                    for _try in range(5):
+                        cand, op = edit_arrangement(rng, arr, nid, real)
+                        if needs_next_pass_ok([c.split("=", 1)[1] for c in cand]) or rng.random() < 0.1:
+                            arr = cand
+                            break
+                    else:
+                        op = "none"
+                nid += 1
+            if real:
+                st = {"auto_rotation": auto, "max_iteration_count": rng.choice([None, None, None, 2, 3]), "units": list(arr)}
+            else:
+                st = {"auto_rotation": auto, "iterations": rng.choice([1, 1, 1, 2, 2, 3]), "units": list(arr)}
+            hist["steps"].append(st)
+            ctx.count(("real-history-edit:" if real else "history-edit:") + op)
+            h.arrange(arr)
+            run_, its = h.solve(auto, st.get("iterations", 1), st.get("max_iteration_count"))
+            if run_ is None:
+                ctx.count("real-history-solve-raised")
+                hist["steps"].pop()
+                break
+            if j > 0 and sum(1 for k in h.kinds if k == "P") >= 2:
+                nontriv = True
+            ctx.count("history-iterations:" + str(min(its, 4)))
+            for (k0, what) in judge_hist_step(w, spec, h, auto, run_):
+                k = hist_key(j, its, k0)
+                if k in seen_keys:
+                    continue
+                seen_keys.add(k)
+                bad = {"in_profile_classifiers": sorted(cls0), "real": real, "steps": [dict(x) for x in hist["steps"]]}
+                small = shrink_hist(w, spec, bad, k) if hist_fails(w, spec, bad, k) else bad
+                report_hist(ctx, w, spec, small, k, what)
+            if model:
+                if j == 0:
+                    lines.append("hreset")
+                    expect.append(("ok", None))
+                lines.append("auto " + ("1" if auto else "0"))
+                expect.append(("ok", None))
+                lines.append("hsolve %d %s %s" % (its - 1, cls_str(cls0), " ".join(h.slots())))
+                expect.append(("hist", ({"in_profile_classifiers": sorted(cls0), "real": real,
+                                         "steps": [dict(x) for x in hist["steps"]]}, run_, h.caches(), real)))
+        ctx.case(["real-hist" if real else "hist", sorted(cls0), [(s_["auto_rotation"], s_["units"]) for s_ in hist["steps"]]],
+                 nontrivial=nontriv)
+        ctx.count("stream:real-history" if real else "stream:history")
+        del h
+
+
+PRE_PATTERNS = ["iF", "Fi", "nF", "Fn", "mF", "Fm", "iFi", "nFi", "Fni", "iFn", "mFi", "inFim", "Fii", "iiF", "Fmn"]
+
+
+def preprocessor_stream(ctx, w, spec, lines, expect, model, seen_keys):
+    """(p) roll pass classes with further pre-processor factories before / after the inherited rotator_factory (as plug-ins
+    register them), returning new profiles, the given profile, or None: the auto-rotator's output must arrive as in profile"""
+    rng = ctx.rng
+    mids = [[], ["T"], ["R:n90"], ["R:n45", "T"], ["O", "T"], ["R:u", "Tc"]]
+    for pres in PRE_PATTERNS:
+        for s in SETTINGS_Q:
+            for auto in (True, False):
+                mid = rng.choice(mids) if ctx.tier == "quick" and not ctx.extended else None
+                for m in ([mid] if mid is not None else mids):
+                    c1, c2 = rng.choice(CLS_POOL), rng.choice(CLS_POOL)
+                    v = rng.choice(["s2", "s2", "s3"])
+                    toks = [f"P:u:s2:{cls_str(c1)}"] + m + [f"P:{s}:{v}:{cls_str(c2)}:{pres}"]
+                    if rng.random() < 0.3:
+                        toks = [f"P:{rng.choice(SETTINGS_Q)}:s2:{cls_str(rng.choice(CLS_POOL))}:{rng.choice(PRE_PATTERNS)}"] + toks
+                    cls0 = rng.choice(CLS_POOL)
+                    kinds, units, mtoks, run_ = run_flow(w, auto, cls0, toks)
+                    ctx.case([auto, sorted(cls0), toks], nontrivial=True)
+                    ctx.count("stream:pre-processors")
+                    ctx.count("pre-processors:" + pres)
+                    errored = bool(run_) and run_[-1]["k"] == "E"
+                    probs = list(oracle_pairs(w, spec, auto, toks, kinds, units, run_))
+                    if errored:
+                        probs.append(("flow-raises-" + run_[-1]["exc"], f"unit #{len(run_) - 1} raises {run_[-1]['exc']}: {run_[-1]['msg']}"))
+                    for (k, what) in probs:
+                        if k in seen_keys:
+                            continue
+                        seen_keys.add(k)
+                        small = shrink(w, spec, auto, cls0, toks, k)
+                        kinds2, units2, _, run2 = run_flow(w, auto, cls0, small)
+                        what2 = next((x for (kk, x) in oracle_pairs(w, spec, auto, small, kinds2, units2, run2) if kk == k), what)
+                        _report(ctx, k, what2, auto, cls0, small, run2)
+                    if model:
+                        slots = ["P#%d:%s" % (j, m_[2:]) if kd == "P" else m_ for j, (kd, m_) in enumerate(zip(kinds, mtoks))]
+                        lines.append("hreset")
+                        expect.append(("ok", None))
+                        lines.append("auto " + ("1" if auto else "0"))
+                        expect.append(("ok", None))
+                        lines.append("hsolve 0 %s %s" % (cls_str(cls0), " ".join(slots)))
+                        expect.append(("seq-pre", (auto, cls0, toks, run_)))
 
 
 def run(ctx):
@@ -754,8 +1364,9 @@ def run(ctx):
             if exp is not None and got != exp:
                 ctx.violation("rule-angle-vs-name", f"rule-based rotation {got} for {sorted(ci)} -> {sorted(p.classifiers)}, "
                               f"the rule names promise {exp}", replay_obj)
-            for (k, what) in check_rotator_record(w, spy.log[0]):
-                ctx.violation(k, what, replay_obj)
+            rec = spy.log[0]
+            guarded(ctx, "the auto-rotator of a stand-alone pass", replay_obj,
+                    lambda: [ctx.violation(k, what, replay_obj) for (k, what) in check_rotator_record(w, rec)])
             if model:
                 lines.append(f"rule {cls_str(ci)} {cls_str(p.classifiers)}")
                 expect.append(("rule", (got, replay_obj)))
@@ -788,7 +1399,8 @@ def run(ctx):
         cases.append(("random", rng.random() < 0.75, rng.choice(CLS_POOL), toks))
 
     seen_keys = set()
-    for (stream, auto, cls0, toks) in cases:
+
+    def one_sequence(stream, auto, cls0, toks):
         kinds, units, mtoks, run_ = run_flow(w, auto, cls0, toks)
         npass = sum(1 for k in kinds if k == "P")
         ctx.case([auto, sorted(cls0), toks], nontrivial=npass >= 2)
@@ -824,38 +1436,71 @@ def run(ctx):
             lines.append("seq " + cls_str(cls0) + " " + " ".join(mtoks))
             expect.append(("seq", (auto, cls0, toks, run_)))
 
+    for (stream, auto, cls0, toks) in cases:
+        guarded(ctx, "a flat sequence", {"auto_rotation": auto, "in_profile_classifiers": sorted(cls0), "units": toks},
+                lambda: one_sequence(stream, auto, cls0, toks))
+
+    # ---- (p) further pre-processors on the pass class -----------------------------------------------------------------
+    guarded(ctx, "pre-processor scenarios", {}, lambda: preprocessor_stream(ctx, w, spec, lines, expect, model, seen_keys))
+
+    # ---- (h) histories: solve, edit the same sequence, solve again ------------------------------------------------------
+    for hist in CORPUS_HIST:
+        def one_corpus(hist=hist):
+            res = exec_hist(w, spec, hist)
+            ctx.case(["hist-corpus", hist["steps"]], nontrivial=True)
+            ctx.count("stream:history-corpus")
+            for (k, what) in res[-1][2] if len(res) == len(hist["steps"]) else []:
+                if k not in seen_keys:
+                    seen_keys.add(k)
+                    report_hist(ctx, w, spec, hist, k, what)
+        guarded(ctx, "a corpus history", hist, one_corpus)
+    guarded(ctx, "histories (marker flows)", {},
+            lambda: history_stream(ctx, w, spec, lines, expect, model, seen_keys, ctx.budget(250, 6000)))
+    guarded(ctx, "histories (real solves)", {},
+            lambda: history_stream(ctx, w, spec, lines, expect, model, seen_keys, ctx.budget(40, 1200), real=True))
+
     # ---- (e) real PassSequence.solve runs (end to end, the sequence iterates until it converges) -----------------------
-    real_solve_stream(ctx, w, spec, lines, expect, model)
+    guarded(ctx, "real solves", {}, lambda: real_solve_stream(ctx, w, spec, lines, expect, model))
 
     # ---- (f) stand-alone passes ----------------------------------------------------------------------------------------
+    def solo_case(auto, s, variant, c):
+        cls0 = rng.choice(CLS_POOL)
+        _, p, mtok = w.build(f"P:{s}:{variant}:{cls_str(c)}")
+        rp = {"auto_rotation": auto, "pass": f"P:{s}:{variant}:{cls_str(c)}", "in_profile_classifiers": sorted(cls0),
+              "how": "stand-alone roll pass (no parent), init_solve(profile)"}
+        with w.switch(auto), w.Spy(w) as spy:
+            try:
+                p.init_solve(w.profile(0, cls0))
+            except Exception as e:
+                if not _in_impl(e):
+                    raise
+                ctx.violation("solo-entry-raises", f"{type(e).__name__}: {e}", rp)
+                return
+            log = list(spy.log)
+        ring0 = np.array(w.profile(0, cls0).cross_section.exterior.coords)
+        turn, congr = w.measure(ring0, np.array(p.in_profile.cross_section.exterior.coords))
+        o = {"k": "P", "rotation": p.rotation, "in_cls": set(p.in_profile.classifiers), "turn": turn,
+             "congruent": congr, "spy": log, "out_cls": set()}
+        ctx.case(["solo", auto, s, variant], nontrivial=False)
+        ctx.count("stream:solo")
+        setting = parse_setting(s)
+        entry = auto if setting is None else (bool(setting))
+        if len(log) != (1 if entry else 0):
+            ctx.violation("solo-entry-rotation", f"{len(log)} entry rotation(s), expected {1 if entry else 0}", rp)
+        for r in log:
+            for (k, what) in check_rotator_record(w, r):
+                ctx.violation(k, what, rp)
+        if model:
+            lines.append("auto " + ("1" if auto else "0"))
+            expect.append(("ok", None))
+            lines.append("solo %s %s %s" % (cls_str(cls0), mtok.split(":")[1], mtok.split(":")[2]))
+            expect.append(("solo", (o, rp)))
+
     for auto in (True, False):
         for s in SETTINGS_X:
             for variant, c in (("s2", ["oval"]), ("s3", ["round"]), ("s2", ["flat"])):
-                cls0 = rng.choice(CLS_POOL)
-                _, p, mtok = w.build(f"P:{s}:{variant}:{cls_str(c)}")
-                with w.switch(auto), w.Spy(w) as spy:
-                    p.init_solve(w.profile(0, cls0))
-                    log = list(spy.log)
-                ring0 = np.array(w.profile(0, cls0).cross_section.exterior.coords)
-                turn, congr = w.measure(ring0, np.array(p.in_profile.cross_section.exterior.coords))
-                o = {"k": "P", "rotation": p.rotation, "in_cls": set(p.in_profile.classifiers), "turn": turn,
-                     "congruent": congr, "spy": log, "out_cls": set()}
-                ctx.case(["solo", auto, s, variant], nontrivial=False)
-                ctx.count("stream:solo")
-                rp = {"auto_rotation": auto, "pass": f"P:{s}:{variant}:{cls_str(c)}", "in_profile_classifiers": sorted(cls0),
-                      "how": "stand-alone roll pass (no parent), init_solve(profile)"}
-                setting = parse_setting(s)
-                entry = auto if setting is None else (bool(setting))
-                if len(log) != (1 if entry else 0):
-                    ctx.violation("solo-entry-rotation", f"{len(log)} entry rotation(s), expected {1 if entry else 0}", rp)
-                for r in log:
-                    for (k, what) in check_rotator_record(w, r):
-                        ctx.violation(k, what, rp)
-                if model:
-                    lines.append("auto " + ("1" if auto else "0"))
-                    expect.append(("ok", None))
-                    lines.append("solo %s %s %s" % (cls_str(cls0), mtok.split(":")[1], mtok.split(":")[2]))
-                    expect.append(("solo", (o, rp)))
+                guarded(ctx, "a stand-alone pass", {"auto_rotation": auto, "pass": f"P:{s}:{variant}:{cls_str(c)}"},
+                        lambda: solo_case(auto, s, variant, c))
 
     # ---- (g) rings through a real rotator vs the model's rotation; successive rotations add up -----------------------
     for i in range(ctx.budget(60, 1500)):
@@ -888,21 +1533,23 @@ def run(ctx):
                 ctx.violation("rotator-raises", f"{type(e).__name__}: {e}", rp)
                 continue
             log = list(spy.log)
-        for r in log:
-            for (k, what) in check_rotator_record(w, r):
-                ctx.violation(k, what, rp)
-        a2 = np.array(o2.cross_section.exterior.coords)
-        a12 = np.array(o12.cross_section.exterior.coords)
-        if a2.shape != a12.shape or np.abs(a2 - a12).max() > 1e-12 * sc * 8 * (1 + abs(th) / 360 + abs(th2) / 360):
-            ctx.violation("rotations-do-not-add-up", f"rotate({th}) then rotate({th2}) differs from rotate({th + th2})", rp)
-        if model:
-            ring = np.array(poly.exterior.coords)
-            lines.append("rot " + bits(th) + " " + " ".join(bits(v) for xy in ring for v in xy))
-            expect.append(("rot", (np.array(o1.cross_section.exterior.coords), o1.cross_section.area, o1.cross_section.length,
-                                   poly.area, poly.length, sc, rp)))
+        def ring_judge():
+            for r in log:
+                for (k, what) in check_rotator_record(w, r):
+                    ctx.violation(k, what, rp)
+            a2 = np.array(o2.cross_section.exterior.coords)
+            a12 = np.array(o12.cross_section.exterior.coords)
+            if a2.shape != a12.shape or np.abs(a2 - a12).max() > 1e-12 * sc * 8 * (1 + abs(th) / 360 + abs(th2) / 360):
+                ctx.violation("rotations-do-not-add-up", f"rotate({th}) then rotate({th2}) differs from rotate({th + th2})", rp)
+            if model:
+                ring = np.array(poly.exterior.coords)
+                lines.append("rot " + bits(th) + " " + " ".join(bits(v) for xy in ring for v in xy))
+                expect.append(("rot", (np.array(o1.cross_section.exterior.coords), o1.cross_section.area, o1.cross_section.length,
+                                       poly.area, poly.length, sc, rp)))
+        guarded(ctx, "a ring through a rotator", rp, ring_judge)
 
     # ---- information only: nested sequences (outside the quantifier) -----------------------------------------------------
-    nested_info(ctx, w)
+    guarded(ctx, "nested sequences (information only)", {}, lambda: nested_info(ctx, w))
 
     # ---- model side -------------------------------------------------------------------------------------------------------
     if model:
@@ -915,6 +1562,8 @@ def run(ctx):
             bad = None
             if kind == "ok":
                 continue
+            if ln.strip() == "bad-op":
+                raise InfraError(f"the Lean driver does not understand the line: {inp}")
             if kind == "rules":
                 if ln.split(",") != pay:
                     bad = (f"evaluation order of the rules: translated {ln}, live hook {','.join(pay)}", {"model": ln, "impl": pay})
@@ -928,6 +1577,21 @@ def run(ctx):
                 if why:
                     bad = (why, {"auto_rotation": auto, "in_profile_classifiers": sorted(cls0), "units": toks,
                                  "impl": show_run(run_), "model": ln})
+            elif kind == "seq-pre":
+                auto, cls0, toks, run_ = pay
+                why = compare_with_model(run_, ln.partition(" | ")[0])
+                if why:
+                    bad = ("pass class with further pre-processors: " + why,
+                           {"auto_rotation": auto, "in_profile_classifiers": sorted(cls0), "units": toks,
+                            "impl": show_run(run_), "model": ln})
+            elif kind == "hist":
+                hist, run_, caches, real = pay
+                left, _, right = ln.partition(" | ")
+                why = compare_with_model(run_, left, blind_auto=real, blind_rotation=real)
+                if not why and not (run_ and run_[-1]["k"] == "E") and right.strip() != caches:
+                    why = f"cached `rotation` of the passes after the solve: model {right.strip()}, implementation {caches}"
+                if why:
+                    bad = ("history (last step): " + why, dict(hist, impl=show_run(run_), model=ln, how=HIST_HOW))
             elif kind == "solo":
                 o, rp = pay
                 why = compare_with_model([o], ln)
@@ -955,7 +1619,6 @@ def run(ctx):
 
 def real_solve_stream(ctx, w, spec, lines, expect, model):
     """flat sequences of REAL roll passes solved by the real PassSequence.solve; observed afterwards on the units"""
-    import numpy as np
     from .common import make_pass, make_in_profile
     rng = ctx.rng
     for _ in range(ctx.budget(25, 1000)):
@@ -996,78 +1659,25 @@ def real_solve_stream(ctx, w, spec, lines, expect, model):
             ctx.count("real-solve-raised:" + type(e.__cause__ or e).__name__)
             continue
         ctx.case(["real", auto, toks], nontrivial=True)
-        # observations on the solved units
-        run_ = []
-        last_ring = np.array(seq.in_profile.cross_section.exterior.coords)
-        mtoks = []
-        for tk, kd, u in zip(toks, kinds, units):
-            if kd == "P":
-                ring = np.array(u.in_profile.cross_section.exterior.coords)
-                turn, congr = w.measure(last_ring, ring)
-                last_ring = np.array(u.out_profile.cross_section.exterior.coords)
-                rot = u.rotation
-                # the auto-rotator is not kept by the pass: whether it acted is read off the in profile's geometry below
-                run_.append({"k": "P", "rotation": rot, "in_cls": set(u.in_profile.classifiers), "turn": turn, "congruent": congr,
-                             "spy": [], "out_cls": set(u.out_profile.classifiers)})
-                mtoks.append("P:%s:%s" % (model_setting(tk.split(":")[1]), cls_str(u.classifiers)))
-            elif kd == "R":
-                run_.append({"k": "R", "angle": u.rotation, "out_cls": set(u.out_profile.classifiers), "spy": []})
-                mtoks.append("R:u" if tk == "R:u" else "R:n" + bits(parse_setting(tk.split(":")[1])))
-            else:
-                run_.append({"k": kd, "spy": []})
-                mtoks.append("T" if kd == "T" else "O")
-        # oracle from the text: total turn between consecutive passes
-        idx = [i for i, k in enumerate(kinds) if k == "P"]
-        rp = {"auto_rotation": auto, "units": toks, "in_profile": "Profile.round(diameter=30e-3)", "observed": show_run(run_),
+        rp = {"auto_rotation": auto, "units": toks, "in_profile": "Profile.round(diameter=30e-3)",
               "how": "real PassSequence(units).solve(in_profile); passes from driver/props/common.make_pass (oval/round alternating)"}
-        for a, b in zip(idx, idx[1:]):
-            setting = parse_setting(toks[b].split(":")[1])
-            explicit = [i for i in range(a + 1, b) if kinds[i] == "R"]
-            if setting is None:
-                entry = auto and not explicit
-            elif isinstance(setting, bool):
-                entry = setting
-            else:
-                entry = setting != 0
-            total = 0.0
-            cls = set(run_[a]["out_cls"])
-            known = True
-            for i in explicit:
-                e = units[i].__dict__.get("rotation")
-                if e is None:
-                    e = spec.angle(cls, units[b].classifiers)
-                if e is None:
-                    known = False
-                    break
-                if units[i].rotation != e:
-                    ctx.violation("explicit-rotator-angle", f"explicit rotator #{i} turns {units[i].rotation}, expected {e}", rp)
-                total += float(e)
-                cls = cls | {"rotated"} | ({MARKS[e]} if e in MARKS else set())
-            if known and entry:
-                e = setting if (setting is not None and not isinstance(setting, bool)) else spec.angle(cls, units[b].classifiers)
-                if e is None:
-                    known = False
+
+        def judge():
+            run_ = observe_solved(w, seq, kinds, units)
+            rp["observed"] = show_run(run_)
+            for (k, what) in judge_solved(spec, auto, toks, kinds, units, run_):
+                ctx.violation(k, what, rp)
+            return run_
+        run_ = guarded(ctx, "a really solved sequence", rp, judge)
+        if model and run_ is not None:
+            mtoks = []
+            for tk, kd, u in zip(toks, kinds, units):
+                if kd == "P":
+                    mtoks.append("P:%s:%s" % (model_setting(tk.split(":")[1]), cls_str(u.classifiers)))
+                elif kd == "R":
+                    mtoks.append("R:u" if tk == "R:u" else "R:n" + bits(parse_setting(tk.split(":")[1])))
                 else:
-                    total += float(e)
-                    cls = cls | {"rotated"} | ({MARKS[e]} if e in MARKS else set())
-            rb = run_[b]
-            where = f"pass #{b} (setting {toks[b].split(':')[1]}, auto {'on' if auto else 'off'}, {len(explicit)} explicit rotator(s))"
-            if not rb["congruent"]:
-                ctx.violation("in-profile-not-congruent", f"{where}: in cross-section is not a turned copy of the previous out cross-section", rp)
-            elif known and not ang_eq(rb["turn"], total):
-                key = "turn-vs-text"
-                if setting is None and auto:
-                    key = "turned-by-both" if explicit else "turned-by-neither" if ang_eq(rb["turn"], 0) else "turn-vs-text"
-                ctx.violation(key, f"{where}: measured turn {rb['turn']:.6f} deg, the property text gives {total}", rp)
-            if known and rb["in_cls"] != cls and rb["congruent"]:
-                ctx.violation("in-profile-classifiers", f"{where}: in classifiers {sorted(rb['in_cls'])}, expected {sorted(cls)}", rp)
-            val = rb["rotation"]
-            if setting is not None:
-                if not (val == setting and isinstance(val, bool) == isinstance(setting, bool)):
-                    ctx.violation("rotation-value-not-the-setting", f"{where}: roll_pass.rotation = {val!r}", rp)
-            elif bool(val) != bool(entry):
-                ctx.violation("rotation-value-wrong", f"{where}: roll_pass.rotation = {val!r}", rp)
-        if model:
+                    mtoks.append("T" if kd == "T" else "O")
             lines.append("auto " + ("1" if auto else "0"))
             expect.append(("ok", None))
             lines.append("seq round " + " ".join(mtoks))
@@ -1123,7 +1733,13 @@ def replay(ctx, data):
     r = data.get("replay", data)
     w = World()
     spec = RuleSpec(w)
-    if "units" in r and "in_profile_classifiers" in r:
+    if "steps" in r:
+        hist = {k: r[k] for k in ("in_profile_classifiers", "real", "steps") if k in r}
+        res = exec_hist(w, spec, hist)
+        if len(res) == len(hist["steps"]):
+            for (k, what) in res[-1][2]:
+                report_hist(ctx, w, spec, hist, k, what)
+    elif "units" in r and "in_profile_classifiers" in r:
         auto, cls0, toks = r["auto_rotation"], r["in_profile_classifiers"], r["units"]
         kinds, units, _, run_ = run_flow(w, auto, cls0, toks)
         for (k, what) in oracle_pairs(w, spec, auto, toks, kinds, units, run_):
